@@ -31,8 +31,9 @@ pub fn panic_text(e: &(dyn std::any::Any + Send)) -> String {
 /// Single-edit damage of a text file (C19). `kind`: 0 line deleted, 1 line duplicated, 2 file truncated before the
 /// line, 3 first number of the line replaced by text, 4 by a value no f32 / no index can hold, 5 by a negative
 /// integer, 6 the block that starts on the line removed (up to the line closing it with `..`), 7 the first quoted
-/// name on the right-hand side renamed. None when the edit does not apply to the line.
-pub const DAMAGE_KINDS: [&str; 8] = ["line deleted", "line duplicated", "truncated before line", "number -> text", "number -> 1e39", "number -> -7", "block removed", "reference renamed"];
+/// name on the right-hand side renamed, 8 / 9 / 10 the first number replaced by 0 / 100 / 1 (values that are in range
+/// for some attributes and degenerate for others). None when the edit does not apply to the line.
+pub const DAMAGE_KINDS: [&str; 11] = ["line deleted", "line duplicated", "truncated before line", "number -> text", "number -> 1e39", "number -> -7", "block removed", "reference renamed", "number -> 0", "number -> 100", "number -> 1"];
 
 pub fn damage(text: &str, line: usize, kind: usize) -> Option<String> {
     let lines: Vec<&str> = text.split_inclusive('\n').collect();
@@ -74,13 +75,23 @@ pub fn damage(text: &str, line: usize, kind: usize) -> Option<String> {
             Some(join(v))
         }
         2 => Some(join(lines[..line].to_vec())),
-        3 | 4 | 5 => {
+        3 | 4 | 5 | 8 | 9 | 10 => {
             // inside a quoted string a number is part of a name, not a number
             if l.contains('"') && l.find('"') < number_span(l).map(|s| s.0) {
                 return None;
             }
             let (a, b) = number_span(l)?;
-            let new = ["abc", "1e39", "-7"][kind - 3];
+            let new = match kind {
+                3 => "abc",
+                4 => "1e39",
+                5 => "-7",
+                8 => "0",
+                9 => "100",
+                _ => "1",
+            };
+            if l[a..b].trim() == new {
+                return None;
+            }
             let nl = format!("{}{}{}", &l[..a], new, &l[b..]);
             let mut v = lines.clone();
             v[line] = &nl;
